@@ -12,12 +12,14 @@ import (
 	"fmt"
 	"os"
 	"path/filepath"
+	"runtime"
 	"runtime/debug"
 	"sort"
 	"strconv"
 	"strings"
 	"sync"
 	"testing"
+	"time"
 
 	"pgregory.net/rapid"
 )
@@ -389,6 +391,33 @@ func vfGuard(fn func() string) (msg string) {
 
 type vfStopRapid struct{}
 
+// vfGuardTimed runs one case under a watchdog. A case that does not come back within VERIF_CASE_LIMIT seconds (default 60;
+// the cases it guards take micro- to milliseconds) is recorded as a violation with the unshrunk case and the process ends,
+// because a stuck goroutine cannot be cancelled.
+func vfGuardTimed(c *vfCollector, cs any, fn func() string) string {
+	limit := time.Duration(vfEnvInt("VERIF_CASE_LIMIT", 60)) * time.Second
+	done := make(chan string, 1)
+	go func() { done <- vfGuard(fn) }()
+	timer := time.NewTimer(limit)
+	defer timer.Stop()
+	select {
+	case msg := <-done:
+		return msg
+	case <-timer.C:
+		buf := make([]byte, 1<<16)
+		n := runtime.Stack(buf, true)
+		st := string(buf[:n])
+		if len(st) > 6000 {
+			st = st[:6000]
+		}
+		c.violation("hang", cs, fmt.Sprintf("case did not terminate within %v (busy loop or blocked read)\n%s", limit, st))
+		vfFlushAll()
+		fmt.Fprintf(os.Stderr, "verif: case did not terminate within %v\n", limit)
+		os.Exit(1)
+		return ""
+	}
+}
+
 // vfCheck is the common shape of a generated check: regress/replay files first (bypassing rapid), then
 // rapid.Check over gen → run.
 func vfCheck[T any](t *testing.T, c *vfCollector, gen func(*rapid.T) T, run func(T) string) {
@@ -411,7 +440,7 @@ func vfCheck[T any](t *testing.T, c *vfCollector, gen func(*rapid.T) T, run func
 	}
 	rapid.Check(t, func(rt *rapid.T) {
 		cs := gen(rt)
-		if msg := vfGuard(func() string { return run(cs) }); msg != "" {
+		if msg := vfGuardTimed(c, cs, func() string { return run(cs) }); msg != "" {
 			c.fail("generated", cs, msg)
 			rt.Fatalf("%s", msg)
 		}
